@@ -29,7 +29,8 @@
    against a fresh `post` and against every F[k] are those verdicts.          *)
 EXTENDS Val, TLC, Json, IOUtils, SequencesExt
 
-CONSTANTS MaxLen,     \* longest list / string held (top level and inner)
+CONSTANTS MaxLen,     \* longest list / string held
+          MaxInner,   \* longest list one level down
           MaxKeys,    \* most keys of a held map
           Export
 
@@ -73,8 +74,8 @@ Init == w \in Starts /\ last = NoLab
 \* the model bound: nothing grows beyond MaxLen
 Fits(v) == /\ Len(v.items) <= MaxLen /\ Len(v.s) <= MaxLen
            /\ v.k = "map" => Len(v.items) <= MaxKeys
-           /\ \A i \in DOMAIN v.items : Len(v.items[i].items) <= MaxLen
-           /\ \A i \in DOMAIN v.vals : Len(v.vals[i].items) <= MaxLen
+           /\ \A i \in DOMAIN v.items : Len(v.items[i].items) <= MaxInner
+           /\ \A i \in DOMAIN v.vals : Len(v.vals[i].items) <= MaxInner
 
 Do(path, op) ==
   /\ PathOK(w, path) /\ EditOK(SubAt(w, path), op)
@@ -96,10 +97,10 @@ WSetChar  == \E i \in 1..MaxLen, c \in DOMAIN ChrP : Do(<< >>, EOp("setchar", i,
 \* the writers one level down: on the list at position p of a held list, on the
 \* list stored under a key of a held map
 InnerSteps == {<<PStep(p, VNull)>> : p \in 1..MaxLen} \cup {<<PStep(0, KeyP[k])>> : k \in DOMAIN KeyP}
-InnerOps == {EOp("setat", i, EInn[e], VNull) : i \in 1..MaxLen, e \in DOMAIN EInn}
+InnerOps == {EOp("setat", i, EInn[e], VNull) : i \in 1..MaxInner, e \in DOMAIN EInn}
             \cup {EOp("append", 0, EInn[e], VNull) : e \in DOMAIN EInn}
-            \cup {EOp("insertat", i, EInn[e], VNull) : i \in 1..(MaxLen + 1), e \in DOMAIN EInn}
-            \cup {EOp("deleteat", i, VNull, VNull) : i \in 1..MaxLen}
+            \cup {EOp("insertat", i, EInn[e], VNull) : i \in 1..(MaxInner + 1), e \in DOMAIN EInn}
+            \cup {EOp("deleteat", i, VNull, VNull) : i \in 1..MaxInner}
             \cup {EOp("remove", 0, EInn[e], VNull) : e \in DOMAIN EInn}
 InnerEdit == \E path \in InnerSteps, op \in InnerOps : Do(path, op)
 \* the hash of w is taken: no effect on the content
